@@ -298,6 +298,7 @@ fn run_script(script: &Script, fault: Fault) -> Outcome {
     let mut crashed: HashSet<SocketAddrV4> = HashSet::new();
     let mut nodes: Vec<Option<Node>> = net.nodes.into_iter().map(Some).collect();
     let mut first_store_at_prev: Option<u64> = None;
+    let mut storm = false;
     loop {
         let now = w.now();
         // start calls whose placement is due
@@ -350,6 +351,13 @@ fn run_script(script: &Script, fault: Fault) -> Outcome {
         if now - t_start > bound_total {
             break;
         }
+        // a request storm: tens of thousands of datagrams in a network of a handful of nodes. No scenario of the
+        // unchanged code comes near a thousand; waiting out the virtual bound would take hours of real time.
+        let n_so_far = counter_reader().borrow().as_ref().map(|c| c.lock().unwrap_or_else(|e| e.into_inner()).n).unwrap_or(0);
+        if n_so_far > 30_000 {
+            storm = true;
+            break;
+        }
         // next due start time limits the step
         let limit = if started < script.calls.len() {
             let (_, _, place) = script.calls[started];
@@ -371,8 +379,14 @@ fn run_script(script: &Script, fault: Fault) -> Outcome {
             _ => {}
         }
     }
+    if storm {
+        let open: Vec<String> = calls.iter().enumerate().filter(|(_, c)| c.as_ref().map(|c| !c.task.done()).unwrap_or(false)).map(|(i, _)| format!("{:?}", script.calls[i].0)).collect();
+        violations.push((format!("hang/{}/request-storm", open.first().cloned().unwrap_or_else(|| "none".into())), "the node had sent or received more than 30,000 datagrams for these calls in a network of a handful of nodes and a call still had not returned: the time a call takes is not bounded by the number of nodes contacted".into(), json!({"calls_still_open": open, "virtual_seconds": (w.now() - t_start) / SEC})));
+    }
     // quiescence: two more seconds, then look at the put receivers
-    w.run_for(3 * SEC);
+    if !storm {
+        w.run_for(3 * SEC);
+    }
     let (msgs, fault_hit, contacted_n) = {
         let rc = counter_reader();
         let g = rc.borrow();
